@@ -35,7 +35,28 @@ OBLIGATIONS = [
     "C16_table_roundtrip_partial", "C16_scalar_refuted", "C16_underscore_refuted",
     "C16_csv_roundtrip_partial", "C16_csv_na_id_refuted",
     "C16_empty_refuted", "C16_save_load_extension",
+    # source level (T1): the same statements over the tables regenerated from individual_parameters.py (coq/gen/GenC16.v)
+    "C16_src_add_is_model", "C16_src_add_rejects_partial", "C16_src_bool_rejected", "C16_src_add_accepts",
+    "C16_src_conversions_are_model", "C16_src_torch_roundtrip", "C16_src_table_roundtrip_partial",
+    "C16_src_scalar_refuted", "C16_src_underscore_refuted", "C16_src_json_roundtrip", "C16_src_load_fills",
 ]
+
+
+def translate(run: Run) -> bool:
+    """T1: regenerate coq/gen/GenC16.v (order of the checks of add_individual_parameters, accepted types and kind of type test, label and
+    cut rules, iteration sources, attributes filled by the readers) from $VERIF_REPO; fail closed."""
+    from harness.translate import c16_container
+    try:
+        ok = c16_container.translate(run)
+    except Exception as e:  # noqa - an AST shape the translator has never met must not stop the search
+        import traceback
+        run.broken("translate:GenC16", f"translator crashed: {type(e).__name__}: {e}\n{traceback.format_exc()[-800:]}", kind="broken-translation")
+        ok = False
+    if not ok:
+        # never leave the tables of an earlier run behind: the proofs must not be checked against a stale translation
+        run.gen("GenC16", "(* the translation of this run FAILED (harness/translate/c16_container.py): no table *)\n")
+    return ok
+
 
 HDR = ("From Coq Require Import List String Ascii Bool Arith QArith.\n"
        "From Leaspy Require Import Io.IndivParams Io.IndivParamsTie.\n"
@@ -1011,6 +1032,7 @@ def check(run: Run):
 
 
 def main(run: Run):
+    translate(run)
     run.prove("C16", OBLIGATIONS)
     from harness.common import make
     ok, out = make(["theories/Io/IndivParamsTie.vo"])      # the comparison functions run by the generated case files
